@@ -97,12 +97,63 @@ def gen_dense(rng, maxops):
     return hs + '|' + ' '.join(ops)
 
 
+# element sizes of the typed stream: 0 = builtin Int (8 bytes), else a user struct of that many bytes
+# (1, 4, 12, 20: none a multiple of sizeof(var)); (key size, value size)
+KINDS = [(0, 12), (12, 0), (12, 12), (1, 0), (1, 12), (4, 20), (20, 4), (0, 1), (0, 4), (0, 20), (20, 20), (1, 1), (4, 4), (12, 20)]
+
+
+def gen_typed(rng, maxops, kinds=None):
+    """Table<K,V> with user element types whose sizes are not multiples of the pointer size: inserts
+    with growth (1 -> 5 -> 11 -> 23 -> 53 slots), updates, removals with shrink, copy, assign over an
+    existing table, resize, new with pairs.  Every byte of every stored key and value is checked
+    (the harness prints an element as its integer only if all its bytes are the encoding's), and
+    the slot layout (step, reserved key/value bytes) is compared with the model's."""
+    ks, vs = rng.choice(kinds or KINDS)
+    nkeys = rng.choice([3, 6, 12, 25, 40])
+    if ks == 1:
+        pool = rng.sample([55 * i for i in range(5)] + [5 * i for i in range(50)] + list(range(256)), 60)
+    elif rng.random() < .5:
+        pool = [1265 * i + rng.choice([0, 0, 1]) for i in range(60)]          # homes collide modulo 5, 11, 23
+    else:
+        pool = rng.sample(range(-5, 200), 60)
+    keys = list(dict.fromkeys(pool))[:nkeys]
+    if ks == 0 or rng.random() < .5:
+        hs = 'id'
+    else:
+        hs = ','.join('%d:%d' % (k, rng.choice([0, 4, LCM_SMALL, rng.randrange(64), rng.randrange(2**64)])) for k in keys)
+    val = (lambda: rng.randrange(256)) if vs == 1 else (lambda: rng.choice([rng.randrange(1000), 2**31 - 1, -2**31, -1]) if vs != 0 else rng.randrange(-2**40, 2**40))
+    ops = []
+    if rng.random() < .2:
+        ops.append('n' + ','.join('%d:%d' % (rng.choice(keys), val()) for _ in range(rng.randrange(1, 8))))
+    live = set()
+    grow = rng.random() < .6
+    for i in range(rng.randrange(2, maxops)):
+        r, k = rng.random(), rng.choice(keys)
+        if grow and i < len(keys): r, k = 0, keys[i]                  # fill first: growth through the sizes
+        if r < .45: ops.append('s%d,%d' % (k, val())); live.add(k)
+        elif r < .70:
+            if live and rng.random() < .85: k = rng.choice(sorted(live))
+            ops.append('r%d' % k); live.discard(k)
+        elif r < .80: ops.append(rng.choice('gm') + str(k))
+        elif r < .86: ops.append('c')
+        elif r < .92: ops.append('a')
+        else:
+            ops.append('z%d' % rng.choice([0, len(live), len(live) + 1, 9, 47]))
+            if ops[-1] == 'z0': live.clear()
+    ops += ['g%d' % k for k in keys[:12]]
+    return 't%d.%d;%s|%s' % (ks, vs, hs, ' '.join(ops))
+
+
 def continuations(rng, case, count, maxops=25):
     """Directed search around a case on which model and implementation differ: keep its hash
     script and operations, continue with set/rem/get/mem over its keys and over new keys whose
     homes are next to the existing ones (a structural difference of the slot array becomes a
     lost or duplicated key once the cluster is probed and reshuffled)."""
     hs, ops = case.split('|', 1)
+    pre = ''
+    if hs.startswith('t'):
+        pre, hs = hs.split(';', 1)
+        pre += ';'
     toks = [t for t in ops.split(' ') if t]
     out = []
     if hs == 'id':
@@ -118,6 +169,11 @@ def continuations(rng, case, count, maxops=25):
             for d in (0, 0, 1, -1):
                 hm[nxt] = max(0, h + d); nxt += 1
         pool, spec = list(hm), ','.join('%d:%d' % kv for kv in hm.items())
+    if pre.startswith('t1.'):
+        pool = [k for k in pool if 0 <= k < 256] or [0]          # one-byte keys
+    elif pre:
+        pool = [k for k in pool if -2**31 <= k < 2**31] or [0]
+    spec = pre + spec
     for _ in range(count):
         cut = rng.randrange(max(1, len(toks) - 3), len(toks) + 1) if rng.random() < .5 else len(toks)
         t = toks[:cut]
@@ -136,6 +192,8 @@ def parse(line):
     res = []
     for part in line.split(' | '):
         f = part.split(';')
+        if len(f) == 5 and f[2].startswith('L'):      # typed case: layout field (white-box, model only)
+            f = f[:2] + f[3:]
         if len(f) == 4:
             res.append(tuple(f))
         else:
@@ -150,7 +208,7 @@ def oracle(case, impl, spec):
     for n, (a, b) in enumerate(zip(pi, ps)):
         out, ln, slots, it = a
         if ln is None:
-            return 'step %d: %s' % (n, out)
+            return 'step %d: implementation %s' % (n, out.strip() or 'printed no record (crashed before the first one?)')
         if out != b[0]:
             return 'step %d: outcome %s, specification says %s' % (n, out, b[0])
         if ln != b[1]:
@@ -195,6 +253,11 @@ CORPUS = [
     'id|s1,1 z0 s2,2 g2 m1',                          # D2: emptied table keeps working
     '0:0,1:0,2:0,3:0|s0,0 s1,1 s2,2 s3,3 s0,9 s1,8 r2 g0 g1 g3 m2',
     '7:4,8:4,9:4,3:3|s3,0 s7,1 s8,2 s9,3 r3 g7 g8 g9 r8 g9 s8,5 g8',   # wrap-around at the last slot of 5
+    # element sizes that are not multiples of sizeof(var): growth 1 -> 5 -> 11, update, removal, copy, assign
+    't0.12;id|s1,10 s2,20 s3,30 s4,40 s5,50 s6,60 g1 g6 s1,11 r2 c g1 g3 a g6 m2',
+    't12.0;id|s1,10 s2,20 s3,30 s4,40 s5,50 s6,60 g1 g6 s1,11 r2 c g1 g3 a g6 m2',
+    't12.12;0:0,5:0,10:4,15:4|s0,1 s5,2 s10,3 s15,4 g0 g5 g10 g15 r0 g5 c g15 z9 g10',
+    't1.20;id|s55,1 s110,2 s165,3 s220,4 s0,5 g55 g220 r110 g165 a g0 m110',
 ]
 
 
@@ -232,7 +295,11 @@ def run(ctx):
                        'Int keys (identity hash); a second stream ("dense") fills a table of 5, 11 or 23 slots to the highest count '
                        'that keeps its size, with homes drawn from a window of 1-4 adjacent slots (anywhere, also across the array end), '
                        'then removes and re-inserts at constant count, so that displacement chains, backward shifts across the wrap and '
-                       'distance-stopped lookups occur in most cases, and ends with a get of every key (present or not); a case is non-trivial when at least one entry sits away from its '
+                       'distance-stopped lookups occur in most cases, and ends with a get of every key (present or not); a third stream ("typed") runs '
+                       'the same kinds of histories (growth 1-5-11-23-53, updates, removals with shrink, copy, assign over an existing table, resize, '
+                       'new with pairs) on Table<K,V> with user struct types of 1, 4, 12 and 20 bytes and Int, as key and as value: every byte of every '
+                       'stored key and value must be the encoding of the integer the model holds, and step / reserved key bytes / reserved value bytes '
+                       'of the slot must equal the model layout (8 + round_up(ksize) + round_up(vsize) plus two headers); a case is non-trivial when at least one entry sits away from its '
                        'home slot (displacement happened); distinct = distinct implementation transcripts; every step of every case '
                        'compares outcome, len and the iterated bindings with the finite map (oracle) and the whole slot array with the '
                        'extracted model (correspondence)')
@@ -274,8 +341,11 @@ def run(ctx):
     maxops = 60 if quick else 120
     cases = [gen_case(ctx.rng, maxops if i % 3 else 12) for i in range(n)]
     dense = [gen_dense(ctx.rng, 40 if quick else 80) for i in range(n)]
-    ctx.cov['streams'] = {'mixed': n, 'dense': n, 'corpus': len(CORPUS)}
-    ok = feed_all(cases) and feed_all(dense)
+    nt = 700 if quick else 20000
+    typed = [gen_typed(ctx.rng, 60 if quick else 120) for i in range(nt)]
+    ctx.cov['streams'] = {'mixed': n, 'dense': n, 'typed (element sizes 1, 4, 12, 20 and Int, as key and as value)': nt,
+                          'corpus': len(CORPUS)}
+    ok = feed_all(cases) and feed_all(dense) and feed_all(typed)
     if ok and not quick:
         t0 = __import__('time').time()
         cnt = 0; buf = []
@@ -302,6 +372,9 @@ def run(ctx):
         for i in range(250, len(conts), 500):
             dd.feed(conts[i:i + 500])
             if dd.oracle_fail: return
+        # the element sizes for which the layout theorems need Table_Size_Round to round up
+        dd.feed([gen_typed(ctx.rng, 40) for _ in range(400)])
+        if dd.oracle_fail: return
         for _ in range(10):
             dd.feed([gen_dense(ctx.rng, 60) for _ in range(1000)] + [gen_case(ctx.rng, 40) for _ in range(500)])
             if dd.oracle_fail: return
